@@ -25,9 +25,13 @@ const nsPerSec = "1000000000"
 func init() {
 	pureNatives = map[string]pureNativeFn{}
 	natives = map[string]nativeFn{
-		"time.Now":   nativeNow,
-		"time.Since": func(fr *Frame, st *State, a []Val, p token.Pos) Val { return timeSub(fr.run.clockRead(st), fr.toTerm(a[0])) },
-		"time.Until": func(fr *Frame, st *State, a []Val, p token.Pos) Val { return timeSub(fr.toTerm(a[0]), fr.run.clockRead(st)) },
+		"time.Now": nativeNow,
+		"time.Since": func(fr *Frame, st *State, a []Val, p token.Pos) Val {
+			return timeSub(fr.run.clockRead(st), fr.toTerm(a[0]))
+		},
+		"time.Until": func(fr *Frame, st *State, a []Val, p token.Pos) Val {
+			return timeSub(fr.toTerm(a[0]), fr.run.clockRead(st))
+		},
 	}
 	natives["fmt.Sprintf"] = func(fr *Frame, st *State, a []Val, p token.Pos) Val {
 		return fr.formatCall(st, fr.curCall, a, "sprintf", 0, "Str")
@@ -196,7 +200,6 @@ func (e *Engine) isNoop(name string) bool {
 	return false
 }
 
-
 // closureTerm evaluates a side-effect-free closure on symbolic arguments as a term (usable under a binder).
 func (fr *Frame) closureTerm(st *State, clo *Closure, args []Term) Term {
 	r := fr.run
@@ -275,7 +278,6 @@ func nativeSortSlice(fr *Frame, st *State, args []Val, pos token.Pos) Val {
 	r.noteAssume("sort.Slice leaves a permutation (mutual membership) ordered by the less function")
 	return nil
 }
-
 
 // itoa: decimal rendering of an integer: an injective uninterpreted function
 func (r *Run) itoa(n Term) Term {
